@@ -221,9 +221,11 @@ outer:
 		)
 	})
 
-	// Keep first (highest ranked) for each main value
+	// Keep first (highest ranked) for each main value with its parameters:
+	// "text/plain;charset=utf-8" and "text/plain" are different members, and a
+	// request that names both is not the request that names one of them.
 	qualityParts = slices.CompactFunc(qualityParts, func(a, b qualityValue) bool {
-		return a.main == b.main
+		return a.main == b.main && slices.Equal(a.params, b.params)
 	})
 
 	// Reconstruct
